@@ -145,7 +145,7 @@ def one(res, ctx, root, rng, t, forced_style, idx, sample=False):
     elif r < 0.18:
         template = "nocontrib"
     elif r < 0.24:
-        template = rng.choice(["droplic", "dropcop", "dropboth", "droplic-commented", "dropboth-commented"])
+        template = rng.choice(["droplic", "dropcop", "dropboth", "droplic-commented", "dropboth-commented", "misspelt"])
     elif r < 0.30 and short == "python" and not uncomm and not binary and mode is None:
         template = "commented"
     if template:
@@ -184,7 +184,7 @@ def one(res, ctx, root, rng, t, forced_style, idx, sample=False):
         res.violation(f"plain-request-refused:{short}:{mode or 'default'}:{template or 'default'}", f"annotate did not succeed on a plain request ({desc})",
                       args=args, **r.brief())
         return
-    if template in ("droplic", "dropcop", "dropboth", "droplic-commented", "dropboth-commented") and success:
+    if template in ("droplic", "dropcop", "dropboth", "droplic-commented", "dropboth-commented", "misspelt") and success:
         res.violation(f"success-with-information-dropping-template:{template}", f"annotate reports success although template {template} does not render "
                       f"the requested information ({desc})", args=args, written=open(annot.carrier_of(f), encoding="utf-8", errors="replace").read()[:500])
         return
